@@ -101,6 +101,9 @@ func VipRuleConfLoad(filename string) (VipConf, error) {
 	vipConf.VipMap = make(Vip2Product)
 	for product, viplist := range config.Vips {
 		for _, vip := range viplist {
+			if p, ok := vipConf.VipMap[vip]; ok && p != product {
+				return vipConf, fmt.Errorf("vip %s belongs to both product %s and %s", vip, p, product)
+			}
 			vipConf.VipMap[vip] = product
 		}
 	}
